@@ -29,6 +29,8 @@ type Net struct {
 	AcceptOK func(l *Listener) bool  // optional veto for accept assignment
 	// DefaultWindow is the per-direction byte window (0 = unbounded).
 	DefaultWindow int
+	// NextSrc, when set, is the source address of the next Dial.
+	NextSrc net.IP
 	// RstOnWriteToClosed makes writes to a peer that has closed fail (EPIPE).
 	RstOnWriteToClosed bool
 }
@@ -242,6 +244,10 @@ func (n *Net) Dial(ip string, port int, who string) (*End, error) {
 	id := len(n.conns) + 1
 	c := &Conn{n: n, ID: id, Who: who, SrvRecvAtLnClose: -1}
 	cliAddr := &net.TCPAddr{IP: net.IPv4(10, 0, byte(id>>8), byte(id)), Port: 40000 + id%20000}
+	if n.NextSrc != nil {
+		cliAddr.IP = n.NextSrc
+		n.NextSrc = nil
+	}
 	srvAddr := &net.TCPAddr{IP: net.ParseIP(s.IP), Port: s.Port}
 	if srvAddr.IP == nil || srvAddr.IP.IsUnspecified() {
 		srvAddr.IP = net.IPv4(127, 0, 0, 1)
@@ -351,7 +357,10 @@ func (timeoutErr) Timeout() bool   { return true }
 func (timeoutErr) Temporary() bool { return true }
 func (timeoutErr) Is(t error) bool { return t == os.ErrDeadlineExceeded }
 
-func (e *End) Read(p []byte) (int, error) {
+func (e *End) Read(p []byte) (n int, err error) {
+	if traceLive {
+		defer func() { fmt.Fprintf(os.Stderr, "  read %s len(p)=%d -> n=%d err=%v\n", e.Name(), len(p), n, err) }()
+	}
 	mu := &e.conn.n.mu
 	for {
 		mu.Lock()
